@@ -406,10 +406,10 @@ def replay(path):
         print('replay file records a broken proof obligation / correspondence, not an input: %s' % obj.get('kind'))
         print(json.dumps(obj, indent=1)[:3000])
         sys.exit(1)
-    build_driver()
+    driver, _ = model_driver()
     build_harness(['owrun'])
     li = run_impl([line])[0]
-    lm = run_model([line])[0]
+    lm = run_lines(driver, [line], crash_token='MODELCRASH')[0]
     print('case :', line)
     print('impl :', li)
     print('model:', lm)
@@ -428,13 +428,61 @@ def replay(path):
     sys.exit(1 if (fails or li != lm) else 0)
 
 
+# ---------------------------------------------------------------- building (own closure only)
+def prove_own_closure(c):
+    """Check.prove(), but `make` only Properties/C18.vo and what it depends on, so that a file of another
+    component that does not compile at the moment cannot break this property's proof check."""
+    import vlib
+    orig = vlib.coq_make
+    vlib.coq_make = lambda targets=None: orig(['Properties/C18.vo'])
+    try:
+        c.prove()
+    finally:
+        vlib.coq_make = orig
+
+
+def model_driver():
+    """the shared OCaml driver; if the shared extraction does not build (another component's kernel is
+    broken), a private driver with only the C18 functions, built under out/C18/ocaml"""
+    try:
+        build_driver()
+        return os.path.join(OCAML, 'driver'), 'shared'
+    except BuildError as e:
+        log('shared driver does not build (%s); building a private C18 driver' % e.what)
+    d = os.path.join(OUT, 'C18', 'ocaml')
+    os.makedirs(d, exist_ok=True)
+    idents, mods = [], []
+    for l in open(os.path.join(COQ, 'Extract', 'lists', 'c18.list')):
+        t = l.split('#')[0].split()
+        if t:
+            mods.append(t[0])
+            idents += t[1:]
+    open(os.path.join(d, 'Extract.v'), 'w').write(
+        'From Coq Require Import Extraction ExtrOcamlBasic ExtrOCamlFloats ExtrOCamlInt63.\n'
+        'From OW Require Import Base.Arith Base.FInst.\n' + ''.join('From OW Require Import %s.\n' % m for m in mods) +
+        'Extraction Language OCaml.\nExtraction "model.ml" FArith ' + ' '.join(idents) + '.\n')
+    sh('coqc -Q %s OW Extract.v' % COQ, cwd=d, timeout=1200)
+    open(os.path.join(d, 'registry.ml'), 'w').write(
+        'open Model\ntype string = Stdlib.String.t\ntype char = Stdlib.Char.t\ntype int = Stdlib.Int.t\n'
+        'type kern = Float64.t arith -> Float64.t list -> Float64.t list -> Float64.t list list\n'
+        '  -> (Float64.t list list * Float64.t list) option\n' +
+        open(os.path.join(OCAML, 'registry.d', 'c18.ml')).read() +
+        'let kernels : (string * kern) list = [\n]\n'
+        'let commands : (string * (Float64.t arith -> string list -> string)) list = [\n' +
+        open(os.path.join(OCAML, 'registry.d', 'c18.commands')).read() + ']\n')
+    sh('cp %s .' % os.path.join(OCAML, 'driver.ml'), cwd=d)
+    sh('ocamlfind ocamlopt -O2 -w -a -rectypes -thread -package coq-core.kernel -linkpkg '
+       'model.mli model.ml registry.ml driver.ml -o driver', cwd=d, timeout=1200)
+    return os.path.join(d, 'driver'), 'private (C18 functions only)'
+
+
 # ---------------------------------------------------------------- main
 def main():
     for i, a in enumerate(sys.argv):
         if a == '--replay' and i + 1 < len(sys.argv):
             replay(sys.argv[i + 1])
     c = Check('C18')
-    c.prove()
+    prove_own_closure(c)
     quick = c.tier == 'quick'
     coqchk = 'not run (quick tier)'
     if not quick and not c.proof_broken:
@@ -450,7 +498,7 @@ def main():
         except BuildError as e:
             coqchk = 'failed'
             c.proof_broken = ('coqchk Properties/C18.vo', e.output[-3000:])
-    build_driver()
+    driver, driver_kind = model_driver()
     build_harness(['owrun'])
     rng = c.rng
     rcases = gen_root_cases(rng, 1500 if quick else 40000)
@@ -458,7 +506,7 @@ def main():
     rlines = [root_line(cs) for cs in rcases]
     plines = [pw_line(cs) for cs in pcases]
     impl = run_impl(rlines + plines)
-    model = run_model(rlines + plines)
+    model = run_lines(driver, rlines + plines, crash_token='MODELCRASH')
     stats = {'root_cases': len(rcases), 'piecewise_cases': len(pcases), 'root_valid_oracle_cases': 0, 'root_monotone_cases': 0,
              'root_with_derivative': 0, 'root_returned_within_tol': 0, 'root_budget_clause_applicable': 0,
              'root_fn_evaluations_total': 0, 'root_panics_both_sides': 0, 'piecewise_errors': 0, 'piecewise_values': 0,
@@ -526,7 +574,9 @@ def main():
                      'the first trial pair). Piecewise: strictly increasing tables of length 2-12 (dyadic and random), queries at knots, inside, '
                      'midpoints, one ulp inside/outside the ends, outside, +-Inf, NaN; plus empty/single/duplicate/unsorted tables compared '
                      'model-vs-code only. Non-trivial PIECEWISE case = a value returned for a query between two knots. Distinct = distinct case lines.')
-    c.finish(extra_cov=dict(stats, exhaustive=False, coqchk=coqchk),
+    c.finish(extra_cov=dict(stats, exhaustive=False, coqchk=coqchk, model_driver=driver_kind,
+                            checker_cmd='cd /verif/coq && make -j16 Properties/C18.vo && coqc -Q . OW Properties/C18.v   '
+                                        '(.vo build of the closure of Properties/C18.v; coqchk -o on it in the thorough tier)'),
              assumptions=['theorems are over exact reals; binary64 round-off is covered only by the differential run and the oracle with the stated slacks '
                           '(1e-12 relative on table values: y0 + 1*(y1-y0) may differ from y1 by an ulp)',
                           'fn is treated as a pure function (the model calls it exactly as often and in the same order as the Go code, which is what the '
